@@ -6,7 +6,7 @@ From LH Require Import Base.Bytes Base.Res Model.Lexer Model.Ast Model.Parser Mo
   Proofs.LexerTotalWf Proofs.LexerTotalMain Proofs.ParserTotalNoFault Proofs.ParserTotalMain
   Model.AnnLexer Model.AnnParser Proofs.AnnTotal
   Model.Classes Proofs.ClassesTotal Proofs.ClassesElem
-  Model.Number Proofs.NumberProofs.
+  Model.Number Proofs.NumberProofs Proofs.DepthUnbounded.
 Import ListNotations.
 
 (* ------------------------------------------------------------------ Lua front end *)
@@ -76,3 +76,25 @@ Theorem C01_long_bracket_eof_repaired :
   is_ok (parse_bytes (fun _ => 0%Z) classify_tok [108;111;99;97;108;32;97;32;61;32;49;10;120;32;61;32;91;61;61]%N) = true.   (* local a = 1 / x = [== *)
 Proof. vm_compute; reflexivity. Qed.
 Print Assumptions C01_long_bracket_eof_repaired.
+
+(* ------------------------------------------------------------------ nesting depth (finding C01-deep-nesting, OPEN) *)
+(* What IS proved: the model parser returns for every input (C01_parse_total) with a recursion depth linear in the input
+   (C01_parse_depth_linear). What the model cannot exhibit is the limit of the Go stack (10^9 bytes): the two statements
+   below say that the recursion depth is not bounded by any constant - it follows the nesting of the input.  For every d
+   the d opening parentheses `((((...` (a statement; `parens d` = d tokens `(` and the end-of-file token) need a
+   recursion deeper than d.  On this path the model's nested calls are the Go calls parseSubExp -> parseExp0 ->
+   parsePrefixExp -> parseParensExp -> parseExp -> parseSubExp, the recursion that kills the process on the witnesses
+   of known_findings/C01.json (leg c01.deep). *)
+Theorem C01_parse_depth_exceeds_nesting : forall classify d fuel,
+  fuel <= d -> parse_tokens classify fuel (parens d) = OutOfFuel.
+Proof. exact parse_depth_exceeds. Qed.
+Print Assumptions C01_parse_depth_exceeds_nesting.
+
+Theorem C01_parse_depth_unbounded_refuted : forall classify fuel, exists ts, parse_tokens classify fuel ts = OutOfFuel.
+Proof. exact parse_depth_unbounded. Qed.
+Print Assumptions C01_parse_depth_unbounded_refuted.
+
+(* ... while the same inputs are parsed by the model with the linear fuel (the witness family is not outside the model) *)
+Example C01_parens_parsed_with_linear_fuel :
+  is_ok (parse_tokens classify_tok (fuel_of_tokens (parens 300)) (parens 300)) = true.
+Proof. vm_compute; reflexivity. Qed.
